@@ -2,18 +2,20 @@
   C13 — gozodgen output compiles and validates exactly like the reflection-built schema.
 
   Part A (all parameter strings): the generator's literal formatting.
-  Part B (finite): `decide` over the regenerated `Gen.genTable` (what gozodgen emitted, parsed from
-  the written files, and whether each file type-checks — decided by `go build` in the tie) against
-  `Gen.tagTable` (what FromStruct does on every probe).
+  Part B (finite, over the regenerated tables): for every cell of the rule matrix, from its INPUT (field type × rules):
+  `GenSem.emitCell` (= `GenEmit.emitChain .head`, the transcription of the writer of /repo HEAD) renders to exactly the
+  text found in the generated file (`c13_gen_is_emit`), the file type-checks (`c13_typechecks`, status decided by
+  `go build` in the tie), and the meaning of that chain (`GenSem.denoteChain`, partial) is FromStruct's verdict
+  (`Gen.tagTable`) on every probe, outside classes defined on the input (`c13_equiv_partial`).
 -/
-import Gozod.Model.GenChain
+import Gozod.Model.GenSem
 import Gozod.Model.TagsKnown
 import Gozod.Gen.TagTable
 import Gozod.Gen.GenTable
 set_option linter.unusedSimpArgs false
 
 namespace Gozod.C13
-open Gozod.Tags Gozod.GenChain Gozod.Gen
+open Gozod.Tags Gozod.GenChain Gozod.Gen Gozod.GenSem Gozod.GenEmit
 
 /-! ## Part A — literals -/
 
@@ -34,20 +36,22 @@ theorem goStringTail_plain (p : Str) (h : Plain p) : goStringTail (p ++ [cDQ]) =
       rw [hq]
       simp [goStringTail, hc.1, hc.2.1, hc.2.2, ih]
 
-/-- Full statement for the pinned formatting (`"%s"`): the text emitted for a `default=` parameter is a Go string literal denoting the parameter. -/
-def c13_quote_full : Prop := ∀ p : Str, goStringLit (emitDefault p) = some p
+/-! ### LEGACY witnesses: the formatting before 8c56087 (`emitDefault`, `"%s"`). Nothing executes `emitDefault`; these
+    three statements are kept only to record what was wrong (they are not in THEOREMS of vlib/c13.py). -/
 
-/-- … true for parameters without quote, backslash, newline … -/
-theorem c13_quote_partial (p : Str) (h : Plain p) : goStringLit (emitDefault p) = some p := by
+/-- legacy full statement: the text emitted for a `default=` parameter is a Go string literal denoting the parameter -/
+def legacy_quote_full : Prop := ∀ p : Str, goStringLit (emitDefault p) = some p
+
+theorem legacy_quote_partial (p : Str) (h : Plain p) : goStringLit (emitDefault p) = some p := by
   simp [emitDefault, goStringLit, goStringTail_plain p h]
 
-/-- … and false in general: `default="` is emitted as `.Default(""")`, `default=he"llo` as `.Default("he"llo")`. -/
-theorem c13_quote_full_false : ¬ c13_quote_full := by
+/-- `default=he"llo` was emitted as `.Default("he"llo")` -/
+theorem legacy_quote_full_false : ¬ legacy_quote_full := by
   intro h
   have := h [0x68, 0x65, cDQ, 0x6C, 0x6C, 0x6F]
   revert this; decide
 
-theorem c13_quote_backslash_witness : goStringLit (emitDefault [0x61, cBS, 0x62]) = some [0x61, 0x08] := by decide
+theorem legacy_quote_backslash_witness : goStringLit (emitDefault [0x61, cBS, 0x62]) = some [0x61, 0x08] := by decide
 
 example : Plain [0x68, 0x65, 0x6C, 0x6C, 0x6F] := by
   intro c hc
@@ -159,81 +163,98 @@ theorem goStringTail_esc (p : Str) (h : cNL ∉ p) : goStringTail (p.flatMap esc
 theorem c13_regex_quote (p : Str) (h : cNL ∉ p) : goStringLit (emitRegex p) = some p := by
   simp [emitRegex, goStringLit, repl_eq, goStringTail_esc p h]
 
-/-! ## Part B — the generated chains against FromStruct's behaviour -/
+/-! ## Part B — from the input of every matrix cell: emitted text, compile status, meaning = FromStruct -/
 
 /-- FromStruct's verdict rows of a block in matrix order (singles, then each pair in both orders) -/
 def refRows (b : Block) : List (List TRule × List Bool) :=
   b.singles.map (fun s => ([s.1], s.2)) ++
   b.pairs.flatMap (fun p => [([p.1, p.2.1], p.2.2.1), ([p.2.1, p.1], p.2.2.2)])
 
-def zipTables : List (Block × List GenCell) := tagTable.zip genTable
+def zipTables : List (Block × GenBlock) := tagTable.zip genTable
 
-def alignedBlock (x : Block × List GenCell) : Bool :=
-  decide ((refRows x.1).map (·.1) = x.2.map (·.rules)) && x.2.all (fun c => decide (c.fty = x.1.fty))
+/-- a block's cells: FromStruct's row (rules, verdict per probe) beside what gozodgen wrote for the same rules -/
+def rowsOf (x : Block × GenBlock) : List ((List TRule × List Bool) × GenCell) := (refRows x.1).zip x.2.cells
+
+def alignedBlock (x : Block × GenBlock) : Bool :=
+  decide (x.1.fty = x.2.fty) && decide ((refRows x.1).map (·.1) = x.2.cells.map (·.rules))
 
 /-- both regenerated tables list the same cells in the same order -/
 theorem c13_tables_aligned : tagTable.length = genTable.length ∧ zipTables.all alignedBlock = true := by
   constructor <;> decide +kernel
 
-/-- KNOWN FINDINGS (classes, decidable on the regenerated cell itself) -/
-def refKnown (c : GenCell) : Bool :=
-  c.rules.any (fun r => knownSingle r c.fty) ||
-  (match c.rules with | [r₁, r₂] => knownPair r₁ r₂ c.fty || knownPair r₂ r₁ c.fty | _ => false)
+/-- **The text in every generated file is what the transcription of the writer emits** for the cell's field type and
+    rules: `emitChain .head` is connected to the real writer on all 2 036 cells by proof (and on every other generated
+    program of the run by the `texpr` / `wexpr` ops). -/
+theorem c13_gen_is_emit :
+    ∀ b ∈ genTable, ∀ c ∈ b.cells, c.expr ≠ [] → (emitCell b.fty c.rules).map Chain.render = some c.expr := by
+  have h : genTable.all (fun b => b.cells.all fun c => c.expr.isEmpty || decide ((emitCell b.fty c.rules).map Chain.render = some c.expr)) = true := by
+    decide +kernel
+  intro b hb c hc hne
+  have := List.all_eq_true.mp (List.all_eq_true.mp h b hb) c hc
+  cases he : c.expr with
+  | nil => exact absurd he hne
+  | cons _ _ => simpa [he] using this
 
-/-- the generator emitted no call for some rule of the tag -/
-def dropsRule (c : GenCell) : Bool :=
-  c.rules.any fun r => r != .required && !(chainRules c.ctor c.chain).contains r &&
-    !(r == .nonempty && (chainRules c.ctor c.chain).contains (.min 1))      -- `nonempty` is written `.Min(1)`
+/-- **Every generated file of the matrix parses and type-checks** (FULL statement over the matrix; status decided by
+    go/parser and `go build` in the tie; the judgement of the model on the same cells: `c13_matrix_welltyped`). -/
+theorem c13_typechecks : ∀ b ∈ genTable, ∀ c ∈ b.cells, c.status = .ok := by
+  have h : genTable.all (fun b => b.cells.all fun c => c.status == .ok) = true := by decide +kernel
+  intro b hb c hc
+  simpa using List.all_eq_true.mp (List.all_eq_true.mp h b hb) c hc
 
-/-- `.Optional()` on a `required` pointer field: the generated schema accepts nil -/
-def optionalOnRequired (c : GenCell) : Bool :=
-  c.fty.ptr && c.rules.contains .required && acceptsNil c.chain
+/-! ### the excluded classes — defined on the INPUT of a cell (field type × rules), never on what was emitted -/
 
-/-- the UUID special case appends `.Optional()` to non-pointer fields only: a `*string` field with `uuid` and without
-    `required` gets `gozod.UUID()…` and rejects nil (FromStruct accepts it since 73aac3b; pending/C13-optional-special-ctor.diff) -/
-def specialCtorPtrNil (c : GenCell) : Bool :=
-  c.fty.ptr && !c.rules.contains .required && decide (c.ctor = .uuid) && !acceptsNil c.chain
+/-- the cell is a C06 finding: FromStruct itself departs from the documented rule (tracked there) -/
+def refKnown (t : FTy) (rules : List TRule) : Bool :=
+  rules.any (fun r => knownSingle r t) ||
+  (match rules with | [r₁, r₂] => knownPair r₁ r₂ t || knownPair r₂ r₁ t | _ => false)
 
-def equivKnown (c : GenCell) : Bool := refKnown c || dropsRule c || optionalOnRequired c || specialCtorPtrNil c
+/-- `uuid` AND `url` on a string field: the first picks the constructor, the other format is left out (b4218fe);
+    FromStruct enforces both (df49b33) — open: gen-drops:second-format -/
+def secondFormat (t : FTy) (rules : List TRule) : Bool :=
+  decide (t.base = .string) && rules.contains .url && rules.contains .uuid
 
-def equivOKBlock (x : Block × List GenCell) : Bool :=
-  ((refRows x.1).zip x.2).all fun rc =>
-    rc.2.status != .ok || equivKnown rc.2 || x.1.probes.map (denote rc.2) == rc.1.2
+/-- `min=` beyond int64 on uint / uint64: no call is written (cf94592: the bound methods take an int64); FromStruct applies
+    the bound as a uint64 (9a4a316) — open: gen-drops:bound-beyond-int64 -/
+def boundBeyondInt64 (t : FTy) (rules : List TRule) : Bool :=
+  (decide (t.base = .uint) || decide (t.base = .uint64)) &&
+  rules.any fun r => match r with | .min n => decide (2 ^ 63 - 1 < n) | _ => false
+
+def equivExcluded (t : FTy) (rules : List TRule) : Bool := refKnown t rules || secondFormat t rules || boundBeyondInt64 t rules
+
+/-- the cell's chain — from its input — is judged on every probe and gives FromStruct's verdicts -/
+def cellEquiv (t : FTy) (probes : List Probe) (ref : List Bool) (rules : List TRule) : Bool :=
+  match emitCell t rules with
+  | some ch => decide (probes.map (denoteChain ch) = ref.map some)
+  | none => false
+
+def equivOKBlock (x : Block × GenBlock) : Bool :=
+  (rowsOf x).all fun rc => rc.2.status != .ok || equivExcluded x.1.fty rc.2.rules || cellEquiv x.1.fty x.1.probes rc.1.2 rc.2.rules
 
 /-- Full statement: every generated schema that compiles gives FromStruct's verdict on every probe. -/
 def c13_equiv_full : Prop :=
-  ∀ x ∈ zipTables, ∀ rc ∈ (refRows x.1).zip x.2, rc.2.status = .ok → x.1.probes.map (denote rc.2) = rc.1.2
+  ∀ x ∈ zipTables, ∀ rc ∈ rowsOf x, rc.2.status = .ok →
+    ∃ ch, emitCell x.1.fty rc.2.rules = some ch ∧ x.1.probes.map (denoteChain ch) = rc.1.2.map some
 
-/-- **Equivalence**, outside the known classes (FromStruct itself is a C06 finding on the cell; the
-    generator dropped a rule; `.Optional()` on a required pointer field). -/
+/-- **Equivalence**: for every cell of the matrix whose file type-checks and whose INPUT is outside the three listed
+    classes, the writer emits a chain, that chain is judged by `denoteChain` on every probe (no unknown call, constructor
+    or argument), and the verdicts are FromStruct's. A rule the writer newly drops, or a call the semantics does not know,
+    makes this FAIL — the cell cannot leave the theorem's scope by what was emitted for it. -/
 theorem c13_equiv_partial :
-    ∀ x ∈ zipTables, ∀ rc ∈ (refRows x.1).zip x.2, rc.2.status = .ok → equivKnown rc.2 = false →
-      x.1.probes.map (denote rc.2) = rc.1.2 := by
+    ∀ x ∈ zipTables, ∀ rc ∈ rowsOf x, rc.2.status = .ok → equivExcluded x.1.fty rc.2.rules = false →
+      ∃ ch, emitCell x.1.fty rc.2.rules = some ch ∧ x.1.probes.map (denoteChain ch) = rc.1.2.map some := by
   have h : zipTables.all equivOKBlock = true := by decide +kernel
   intro x hx rc hrc hs hk
   have := List.all_eq_true.mp (List.all_eq_true.mp h x hx) rc hrc
-  simpa [hs, hk] using this
+  simp only [hs, hk, bne_self_eq_false, Bool.false_or, cellEquiv] at this
+  cases he : emitCell x.1.fty rc.2.rules with
+  | none => simp [he] at this
+  | some ch => exact ⟨ch, rfl, by simpa [he] using this⟩
 
-/-- KNOWN FINDINGS: generated files that do not type-check. -/
-def compileKnown (c : GenCell) : Bool :=
-  c.rules.contains .url ||
-  c.rules.any (fun r => match r with | .min n | .max n => decide (2 ^ 63 - 1 < n) | _ => false) ||  -- Uint64().Max takes an int64
-  (match c.fty.base.cls, c.fty.ptr with
-   | .slice, false => true                                   -- gozod.Slice(elem): cannot infer T
-   | .slice, true => c.rules.any (fun r => match r with | .min _ | .max _ => true | _ => false)  -- FromStruct[[]T]().Min undefined
-   | .map, false => true                                     -- gozod.Record(value): not enough arguments
-   | _, _ => false)
-
-def c13_typechecks_full : Prop := ∀ b ∈ genTable, ∀ c ∈ b, c.status = .ok
-
-/-- **Every generated file parses and type-checks**, outside the known classes. -/
-theorem c13_typechecks_partial : ∀ b ∈ genTable, ∀ c ∈ b, compileKnown c = false → c.status = .ok := by
-  have h : genTable.all (fun b => b.all fun c => compileKnown c || c.status == .ok) = true := by decide +kernel
-  intro b hb c hc hk
-  have := List.all_eq_true.mp (List.all_eq_true.mp h b hb) c hc
-  simpa [hk] using this
-
-example : ∃ x ∈ zipTables, ∃ rc ∈ (refRows x.1).zip x.2, rc.2.status = .ok ∧ equivKnown rc.2 = false ∧ rc.2.rules = [.min 3] := by
+/-- the region is inhabited: plain, paired, pointer, slice and nested-struct cells -/
+example : ∃ x ∈ zipTables, ∃ rc ∈ rowsOf x, rc.2.status = .ok ∧ equivExcluded x.1.fty rc.2.rules = false ∧ rc.2.rules = [.min 3] := by
+  decide +kernel
+example : (zipTables.map fun x => ((rowsOf x).filter fun rc => rc.2.status == .ok && !equivExcluded x.1.fty rc.2.rules).length).sum ≥ 2000 := by
   decide +kernel
 
 end Gozod.C13
